@@ -30,7 +30,7 @@ BIT11 = 2048
 def translate():
     from translator import registry
 
-    return registry.generate("Blocks", "Constants", "KernelsFilter")
+    return registry.generate("Blocks", "Constants", "KernelsFilter", "KernelsIntervals")
 
 
 _CACHE = {}
